@@ -69,6 +69,7 @@ pub fn run(tier: &str, seed: u64, out: &Path) -> i32 {
         let mut rng = Rng::new(seed ^ 0x5a9e);
         crate::shape_corr::shape_cases(&mut o, &mut rng, thorough);
         crate::missed_corr::cases_c16(&mut o, &mut rng, thorough);
+        crate::budgets_corr::cases_c16(&mut o, &mut rng, thorough);
     }
     let progs = corpus::programs(&["tests/source", "tests/target"]);
     let progs: Vec<_> = progs.into_iter().filter(|p| p.src.len() < 40000).collect();
